@@ -337,16 +337,22 @@ def build(sc):
         els.append(o)
     # the order of the three assignments and of the assembly is the user's: it varies with the scenario (deterministically)
     order = zlib.crc32(repr((sc['pos0'], sc['spd0'], len(sc['elems']))).encode()) % 4
+
+    def pos0():                     # one initial position in four holds a numpy scalar (every later position then does too)
+        o = mkq(sc['pos0'])
+        if zlib.crc32(repr(sc['pos0']).encode()) % 4 == 2 and o.value != 0:
+            o = type(o)(np.float64(o.value), o.unit)
+        return o
     if order in (0, 1):
         els[-1].external_torque = make_load(sc['load'])
     if order in (1, 2):
         els[-1].angular_speed = mkq(sc['spd0'])
-        els[-1].angular_position = mkq(sc['pos0'])
+        els[-1].angular_position = pos0()
     pt = Powertrain(motor=motor)
     if order in (2, 3):
         els[-1].external_torque = make_load(sc['load'])
     if order in (0, 3):
-        els[-1].angular_position = mkq(sc['pos0'])
+        els[-1].angular_position = pos0()
         els[-1].angular_speed = mkq(sc['spd0'])
     return pt, els
 
